@@ -49,54 +49,55 @@ type AttemptPlan struct {
 
 // Scenario is a complete simulated run.
 type Scenario struct {
-	Hist        *History
-	Start       Pos
-	ServerID    uint32
-	ReadTimeout bool
-	Scribble    bool
+	Hist         *History
+	Start        Pos
+	ServerID     uint32
+	ReadTimeout  bool
+	Scribble     bool
 	LateScribble bool // C08: overwrite all retained transactions after the run, in order
-	Attempts    []AttemptPlan
-	StepCap     int
-	FreeRun     bool // race mode: no stepping (see race.go)
+	Attempts     []AttemptPlan
+	StepCap      int
+	FreeRun      bool // race mode: no stepping (see race.go)
 }
 
 // AttemptResult is everything observed about one attempt.
 type AttemptResult struct {
-	Plan          AttemptPlan
-	StartPos      Pos // position the streamer was expected to request (bookkeeping only)
-	Dialed        bool
-	Master        *MasterLog
-	StreamErr     error
-	StreamPanic   string
-	Returned      bool
-	ErrorResults  []error
-	ErrorBlocked  bool
-	ErrorPanic    string
-	Causes        []string // causes actually injected before Stream returned, in order
-	CauseStep     int
-	ReturnStep    int
-	Hang          bool
-	HangDump      []libGoroutine
-	LeakAfterRet  []libGoroutine
-	LeakAfterErr  []libGoroutine
-	SocketClosed  bool // at the probe after return
-	SocketClosed2 bool // at the probe after Error()
-	HadConn       bool
-	ReaderHolding bool // at the moment the cause fired
-	HandlerParked bool // at the moment the cause fired
-	MidPacket     bool
-	Calls         []*HandlerCall
-	MapperCalls   []*MapperCall
-	PacketsTotal  int
-	PacketsDeliv  int
-	Steps         int
-	SimTime       time.Duration
+	Plan                      AttemptPlan
+	StartPos                  Pos // position the streamer was expected to request (bookkeeping only)
+	Dialed                    bool
+	Master                    *MasterLog
+	StreamErr                 error
+	StreamPanic               string
+	Returned                  bool
+	ErrorResults              []error
+	ErrorBlocked              bool
+	ErrorPanic                string
+	Causes                    []string // causes actually injected before Stream returned, in order
+	CauseStep                 int
+	ReturnStep                int
+	Hang                      bool
+	HangDump                  []libGoroutine
+	LeakAfterRet              []libGoroutine
+	LeakAfterErr              []libGoroutine
+	SocketClosed              bool // at the probe after return
+	SocketClosed2             bool // at the probe after Error()
+	HadConn                   bool
+	ReaderHolding             bool // at the moment the cause fired
+	HandlerParked             bool // at the moment the cause fired
+	MidPacket                 bool
+	Calls                     []*HandlerCall
+	MapperCalls               []*MapperCall
+	PacketsTotal              int
+	PacketsDeliv              int
+	PacketsAtCause            int // packets delivered when the first cause fired (final count if none did)
+	Steps                     int
+	SimTime                   time.Duration
 	CancelBeforeErrorReturned bool
-	EarlyDelivery string
-	DumpServed    Pos
-	PoisonDelivered bool // the whole column-count-change unit (C15) reached the client
-	StepCapped      bool // harness step budget exhausted while progress was still being made
-	PoisonRowsDelivered bool // a rows event of the poison unit reached the client
+	EarlyDelivery             string
+	DumpServed                Pos
+	PoisonDelivered           bool // the whole column-count-change unit (C15) reached the client
+	StepCapped                bool // harness step budget exhausted while progress was still being made
+	PoisonRowsDelivered       bool // a rows event of the poison unit reached the client
 }
 
 // Run is the mutable state of one simulated run.
@@ -125,23 +126,23 @@ type Run struct {
 	cancel   context.CancelFunc
 	ctx      context.Context
 
-	Results  []*AttemptResult
-	Trace    []string
-	steps    int
-	accepted []*HandlerCall // calls whose verdict was nil
+	Results          []*AttemptResult
+	Trace            []string
+	steps            int
+	accepted         []*HandlerCall // calls whose verdict was nil
 	lastAcceptedNext Pos
-	haveAccepted bool
-	Stability []string // C08: differences between snapshot and live object
-	LateScribble []string // C08: sharing between retained transactions
-	HarnessErr string
-	BubbleDeadlock string
-	free *freeState
-	logYield   bool
-	debugYield bool
-	parkedLogs []chan struct{}
-	logParks   int
-	allCancels []context.CancelFunc
-	start time.Time
+	haveAccepted     bool
+	Stability        []string // C08: differences between snapshot and live object
+	LateScribble     []string // C08: sharing between retained transactions
+	HarnessErr       string
+	BubbleDeadlock   string
+	free             *freeState
+	logYield         bool
+	debugYield       bool
+	parkedLogs       []chan struct{}
+	logParks         int
+	allCancels       []context.CancelFunc
+	start            time.Time
 }
 
 func (r *Run) logf(format string, a ...interface{}) {
@@ -411,7 +412,6 @@ var runCounter int
 
 // traceSteps adds one trace line per controller step (VSIM_TRACE_STEPS=1).
 var traceSteps = os.Getenv("VSIM_TRACE_STEPS") == "1"
-
 
 // Execute runs the scenario inside a synctest bubble and returns the run.
 func Execute(t *testing.T, sc *Scenario, tape *Tape) (r *Run) {
@@ -709,6 +709,7 @@ func (r *Run) runAttempt(idx int, plan AttemptPlan) bool {
 					}
 				}
 				att.MidPacket = mid
+				att.PacketsAtCause = r.master.packetsDelivered()
 			}
 		}
 		causeFired = true
@@ -1081,6 +1082,9 @@ func (r *Run) runAttempt(idx int, plan AttemptPlan) bool {
 	if r.master != nil {
 		att.PacketsTotal = len(r.master.packets)
 		att.PacketsDeliv = r.master.packetsDelivered()
+		if len(att.Causes) == 0 {
+			att.PacketsAtCause = att.PacketsDeliv
+		}
 		att.DumpServed = r.master.served
 		for k := 0; k < att.PacketsDeliv && k < len(r.master.packets); k++ {
 			if e := r.master.packets[k].ev; e != nil && e.Unit >= 0 && sc.Hist.Units[e.Unit].Poison {
